@@ -278,18 +278,22 @@ def audit(prop, module, theorems, imports=""):
             if stmt:
                 f.write("Check (%s : %s).\n" % (name, stmt))
             f.write("Print Assumptions %s.\n" % name)
-    # compile the audit files in parallel
-    procs = []
-    for name, stmt in theorems:
+    # compile the audit files, NPROC at a time; a time-out (rc 124: the machine, not the theorem) is tried once more, alone
+    from concurrent.futures import ThreadPoolExecutor
+
+    def run_one(name, tmo="600"):
         path = os.path.join(adir, "Audit_%s_%s.v" % (prop, name))
-        procs.append((name, subprocess.Popen(["timeout", "600", "coqc", "-Q", "theories", "KV", "-noglob",
-                                              os.path.relpath(path, COQ)], cwd=COQ, stdout=subprocess.PIPE,
-                                             stderr=subprocess.STDOUT, text=True)))
-    for name, p in procs:
-        o, _ = p.communicate()
+        p = subprocess.run(["timeout", tmo, "coqc", "-Q", "theories", "KV", "-noglob", os.path.relpath(path, COQ)], cwd=COQ,
+                           stdout=subprocess.PIPE, stderr=subprocess.STDOUT, text=True)
+        return name, p.returncode, p.stdout
+
+    with ThreadPoolExecutor(max_workers=max(2, NPROC)) as ex:
+        outs = list(ex.map(lambda t: run_one(t[0]), theorems))
+    outs = [run_one(name, "1200") if rc == 124 else (name, rc, o) for name, rc, o in outs]
+    for name, rc, o in outs:
         log += o
-        if p.returncode != 0:
-            results[name] = dict(ok=False, axioms=[], why="statement changed or theorem missing: " + o[-400:])
+        if rc != 0:
+            results[name] = dict(ok=False, axioms=[], why=("coqc timed out twice: " if rc == 124 else "statement changed or theorem missing: ") + o[-400:])
             continue
         if "Closed under the global context" in o:
             results[name] = dict(ok=True, axioms=[], why="")
